@@ -11,10 +11,11 @@
      support), with Memoize(true) every evaluated expression stores exactly one result in the memo table and a
      hit evaluates nothing, so the number of evaluated expressions IS the number of stored results
      (C06_evaluations_are_stored_results, every grammar, every input).  When no (offset, expression) pair is stored
-     twice the count is therefore at most |offsets| x |expressions| (C06_linear_bound_partial).  What is missing
-     for the full statement: that a grammar without left recursion never stores a pair twice (no re-entry at one
-     offset), and that offsets stay within 0..|input|; both are decided on the implementation by the C06 check
-     (evaluated expressions <= expressions x (|input| + 1), each action at most once per start position).
+     twice the count is therefore at most |expressions| x (|input| + 1) (C06_linear_bound_nodup_partial; stored
+     offsets lie within the input by the invariant of the run-time model).  What is missing for the full statement:
+     that a grammar without left recursion never stores a pair twice (no re-entry at one offset); it is decided on
+     the implementation by the C06 check (evaluated expressions <= expressions x (|input| + 1), each action at most
+     once per start position).
      For the remaining grammars the statement and the Debug / Statistics options (outside
      the model) are decided by execution (DESIGN.md). *)
 From PV Require Import Lib.Base Lib.Utf8 Syntax.RGrammar Syntax.Code Model.PState Spec.Pos Model.Runtime
@@ -90,6 +91,20 @@ Theorem C06_linear_bound_partial : forall (c : cfg),
     (exprCnt final <= N.of_nat (length offs) * N.of_nat (length ids))%N.
 Proof. exact linear_bound_partial. Qed.
 Print Assumptions C06_linear_bound_partial.
+
+(* the same with the offsets discharged by the invariant of the run-time model (stored offsets lie within the input):
+   at most (number of expressions) x (input length + 1) evaluations, provided no pair is stored twice *)
+Theorem C06_linear_bound_nodup_partial : forall (c : cfg),
+  o_memoize (cO c) = true -> t_optimize (cT c) = false -> t_leftrec (cT c) = false ->
+  q_memo_nocharge (cQ c) = true -> q_memo_label (cQ c) = true -> q_memo_expected (cQ c) = true ->
+  o_maxexpr (cO c) = 0%N ->
+  forall fuel v errors final (ids : list nid), did_not_panic c fuel ->
+    parse c fuel = Returned v errors final ->
+    NoDup (expr_keys (memo final)) ->
+    (forall o n, In (o, n) (expr_keys (memo final)) -> In n ids) ->
+    (exprCnt final <= N.of_nat (length ids) * (N.of_nat (length (cData c)) + 1))%N.
+Proof. exact linear_bound_nodup. Qed.
+Print Assumptions C06_linear_bound_nodup_partial.
 
 (* the hypotheses are met by the grammar of the memo witness on "ab": 20 evaluations, 20 distinct pairs among
    3 offsets x 15 expressions *)
